@@ -110,6 +110,73 @@ fn split_spec(s: &str) -> Vec<String> {
     out
 }
 
+/// identifiers occurring in a token stream
+fn idents_of(ts: proc_macro2::TokenStream, out: &mut BTreeSet<String>) {
+    for t in ts {
+        match t {
+            proc_macro2::TokenTree::Ident(i) => {
+                out.insert(i.to_string());
+            }
+            proc_macro2::TokenTree::Group(g) => idents_of(g.stream(), out),
+            _ => {}
+        }
+    }
+}
+
+/// one arm of a macro_rules! definition with every `$name` replaced by the identifier `M_name` (or by the tokens
+/// bound in `bind`) and every repetition `$( .. ) sep *` replaced by one copy of its content
+fn expand_template(ts: proc_macro2::TokenStream, bind: &BTreeMap<String, proc_macro2::TokenStream>, prefix: &str) -> proc_macro2::TokenStream {
+    use proc_macro2::{Group, Ident, TokenStream, TokenTree};
+    let toks: Vec<TokenTree> = ts.into_iter().collect();
+    let mut out = TokenStream::new();
+    let mut i = 0;
+    while i < toks.len() {
+        match &toks[i] {
+            TokenTree::Punct(p) if p.as_char() == '$' && i + 1 < toks.len() => match &toks[i + 1] {
+                TokenTree::Ident(id) => {
+                    let n = id.to_string();
+                    match bind.get(&n) {
+                        Some(b) => {
+                            // like a macro fragment: an invisible group keeps `as u32 << n` from parsing as `u32<..`
+                            let mut g = Group::new(proc_macro2::Delimiter::None, b.clone());
+                            g.set_span(id.span());
+                            out.extend(std::iter::once(TokenTree::Group(g)))
+                        }
+                        None => out.extend(std::iter::once(TokenTree::Ident(Ident::new(&format!("{}{}", prefix, n), id.span())))),
+                    }
+                    i += 2;
+                }
+                TokenTree::Group(g) => {
+                    out.extend(expand_template(g.stream(), bind, prefix));
+                    i += 2;
+                    // optional separator, then the repetition operator
+                    let is_rep = |t: &TokenTree| matches!(t, TokenTree::Punct(p) if matches!(p.as_char(), '*' | '+' | '?'));
+                    if i < toks.len() && is_rep(&toks[i]) {
+                        i += 1;
+                    } else if i + 1 < toks.len() && matches!(&toks[i], TokenTree::Punct(_)) && is_rep(&toks[i + 1]) {
+                        i += 2;
+                    }
+                }
+                _ => {
+                    out.extend(std::iter::once(toks[i].clone()));
+                    i += 1;
+                }
+            },
+            TokenTree::Group(g) => {
+                let mut ng = Group::new(g.delimiter(), expand_template(g.stream(), bind, prefix));
+                ng.set_span(g.span());
+                out.extend(std::iter::once(TokenTree::Group(ng)));
+                i += 1;
+            }
+            t => {
+                out.extend(std::iter::once(t.clone()));
+                i += 1;
+            }
+        }
+    }
+    out
+}
+
 struct FoundFn<'s> {
     sig: &'s Signature,
     block: &'s Block,
@@ -214,6 +281,104 @@ impl Driver {
         Ok(())
     }
 
+    /// `macro <file> <name> <arm> as <vfile> [$x=tokens ..]`: the arm's body becomes a virtual source file
+    fn add_macro(&mut self, file: &str, name: &str, arm: usize, vfile: &str, binds: &[&str]) -> R<()> {
+        self.load(file)?;
+        let src = &self.sources[file];
+        let mut mac: Option<&ItemMacro> = None;
+        for it in all_items(&src.file.items) {
+            if let Item::Macro(m) = it {
+                if m.mac.path.is_ident("macro_rules") && m.ident.as_ref().map(|i| i == name).unwrap_or(false) {
+                    mac = Some(m);
+                }
+            }
+        }
+        let mac = mac.ok_or_else(|| format!("macro_rules! {} not found in {}", name, file))?;
+        // arms: (pattern) => { body } ;
+        let toks: Vec<proc_macro2::TokenTree> = mac.mac.tokens.clone().into_iter().collect();
+        let mut bodies = vec![];
+        let mut i = 0;
+        while i + 3 < toks.len() + 0 {
+            if let (proc_macro2::TokenTree::Group(_), proc_macro2::TokenTree::Punct(a), proc_macro2::TokenTree::Punct(b), proc_macro2::TokenTree::Group(body)) = (&toks[i], &toks[i + 1], &toks[i + 2], &toks[i + 3]) {
+                if a.as_char() == '=' && b.as_char() == '>' {
+                    bodies.push(body.stream());
+                    i += 4;
+                    if i < toks.len() && matches!(&toks[i], proc_macro2::TokenTree::Punct(p) if p.as_char() == ';') {
+                        i += 1;
+                    }
+                    continue;
+                }
+            }
+            return Err(format!("macro_rules! {}: cannot split into arms", name));
+        }
+        let body = bodies.get(arm).cloned().ok_or_else(|| format!("macro_rules! {} has {} arms, arm {} requested", name, bodies.len(), arm))?;
+        let mut bind = BTreeMap::new();
+        let mut prefix = "M_".to_string();
+        for b in binds {
+            if let Some(p) = b.strip_prefix("prefix=") {
+                prefix = p.to_string();
+                continue;
+            }
+            let (k, v) = b.split_once('=').ok_or_else(|| format!("macro binding `{}` is not $name=tokens", b))?;
+            let ts: proc_macro2::TokenStream = v.replace('~', " ").parse().map_err(|e| format!("binding `{}`: {}", b, e))?;
+            bind.insert(k.trim_start_matches('$').to_string(), ts);
+        }
+        let expanded = expand_template(body, &bind, &prefix);
+        let parsed: File = syn::parse2(expanded).map_err(|e| format!("macro_rules! {} arm {}: the instantiated body does not parse as items: {}", name, arm, e))?;
+        let text = src.text.clone();
+        self.sources.insert(vfile.to_string(), Source { text, file: parsed });
+        Ok(())
+    }
+
+    /// the macro parameters a definition depends on: those it mentions, and those of the template definitions it mentions
+    fn mvars_of(&self, ts: proc_macro2::TokenStream, self_ty: Option<&str>, file: &str) -> Vec<String> {
+        let mut ids = BTreeSet::new();
+        idents_of(ts, &mut ids);
+        if let Some(st) = self_ty {
+            ids.insert(st.to_string());
+        }
+        let mut used: BTreeSet<String> = BTreeSet::new();
+        for m in self.tables.mvars.iter() {
+            if ids.contains(&m.name) {
+                used.insert(m.name.clone());
+            }
+        }
+        // abstract types: their row parameter
+        for (n, x) in self.tables.externs.iter() {
+            if ids.contains(n) {
+                if let Some(r) = &x.row {
+                    used.insert(r.clone());
+                }
+            }
+        }
+        for f in self.tables.fns.iter() {
+            if !f.mvars.is_empty() && f.file == file && ids.contains(&f.name) {
+                used.extend(f.mvars.iter().cloned());
+            }
+        }
+        for c in self.tables.consts.iter() {
+            if !c.mvars.is_empty() && c.file == file && ids.contains(c.key.rsplit("::").next().unwrap()) {
+                used.extend(c.mvars.iter().cloned());
+            }
+        }
+        self.tables.mvars.iter().filter(|m| used.contains(&m.name)).map(|m| m.name.clone()).collect()
+    }
+
+    fn mvar_binders(&self, mvars: &[String], tr: &mut Tr, env: &mut Env) -> R<String> {
+        let mut b = String::new();
+        for n in mvars {
+            let m = self.tables.mvars.iter().find(|m| m.name == *n).unwrap();
+            let c = tr.fresh(n);
+            let t = match &m.coq_ty {
+                Some(t) => t.clone(),
+                None => self.tables.coq_ty(&m.ty)?,
+            };
+            write!(b, " ({} : {})", c, t).unwrap();
+            env.push(n, var(c, m.ty.clone()));
+        }
+        Ok(b)
+    }
+
     fn conv(&self, t: &Type, generics: &BTreeSet<String>, self_ty: Option<&str>, extra_adt: Option<&str>) -> R<Ty> {
         let tabs = &self.tables;
         let cf = self.cur_file.clone();
@@ -304,7 +469,10 @@ impl Driver {
         }
         let cname = sanitize(name);
         let generated = map.is_empty();
-        let (coq_ty, ctor, projs): (String, String, Vec<String>) = if generated {
+        let (coq_ty, ctor, projs): (String, String, Vec<String>) = if map.len() == 2 && map[1] == "newtype" && fields.len() == 1 {
+            // a tuple struct over one field, represented by that field
+            (map[0].to_string(), String::new(), vec![String::new()])
+        } else if generated {
             (cname.clone(), format!("Build_{}", cname), fields.iter().map(|(f, _)| format!("{}_{}", cname, f)).collect())
         } else {
             if map.len() != fields.len() + 2 {
@@ -430,6 +598,14 @@ impl Driver {
                 }
             }
         }
+        let mvars = {
+            let mut ts = quote::ToTokens::to_token_stream(ff.sig);
+            ts.extend(quote::ToTokens::to_token_stream(ff.block));
+            if let Some(t) = ff.impl_self {
+                ts.extend(quote::ToTokens::to_token_stream(t));
+            }
+            self.mvars_of(ts, st, file)
+        };
         let mut self_kind = SelfKind::None;
         let mut params = vec![];
         let mut mut_params: Vec<bool> = vec![];
@@ -511,7 +687,7 @@ impl Driver {
         if self.tables.fns.iter().any(|f| f.coq == coq) {
             return Err(format!("{} `{}`: Coq name `{}` is already used (give `as=`)", file, spec, coq));
         }
-        let info = FnInfo { key: spec.to_string(), name: name.clone(), coq, self_ty: self_ty.clone(), trait_name: trait_spec.clone(), self_kind, const_generics, assoc_params, params, mut_params, ret, fuel: false };
+        let info = FnInfo { key: spec.to_string(), name: name.clone(), coq, self_ty: self_ty.clone(), trait_name: trait_spec.clone(), self_kind, const_generics, assoc_params, params, mut_params, mvars, file: file.to_string(), ret, fuel: false };
         self.tables.fns.push(info);
         let idx = self.tables.fns.len() - 1;
         self.jobs.push(FnJob { file: file.to_string(), self_ty, trait_spec, name, info_idx: idx, module });
@@ -519,7 +695,7 @@ impl Driver {
         Ok(())
     }
 
-    fn add_const(&mut self, file: &str, spec: &str, module: usize) -> R<()> {
+    fn add_const(&mut self, file: &str, spec: &str, coq_as: Option<String>, module: usize) -> R<()> {
         self.load(file)?;
         let parts = split_spec(spec);
         let (st, name) = match parts.len() {
@@ -532,7 +708,7 @@ impl Driver {
         for it in all_items(&src.file.items) {
             match (it, &st) {
                 (Item::Const(c), None) if c.ident == name => found.push((&c.ty, &c.expr, c.span().start().line, c.span().end().line)),
-                (Item::Impl(im), Some(t)) if im.trait_.is_none() && type_last_ident(&im.self_ty).as_deref() == Some(t) => {
+                (Item::Impl(im), Some(t)) if type_last_ident(&im.self_ty).as_deref() == Some(t.rsplit('.').next().unwrap()) => {
                     for ii in im.items.iter() {
                         if let ImplItem::Const(c) = ii {
                             if c.ident == name {
@@ -548,16 +724,19 @@ impl Driver {
             return Err(format!("{} const `{}`: {} definitions found", file, spec, found.len()));
         }
         let (ty, ex, l1, l2) = found[0];
+        let mvars = self.mvars_of(quote::ToTokens::to_token_stream(ex), None, file);
         let ty = self.conv(ty, &BTreeSet::new(), st.as_deref(), None)?;
         let mut tr = Tr { t: &self.tables, self_ty: st.clone(), ret_ty: ty.clone(), mut_self: false, counter: BTreeMap::new(), mut_methods: BTreeSet::new(), generic_tys: BTreeSet::new(), subst: BTreeMap::new(), fuel: false, needs_fuel: false, fuel_var: String::new(), fuel_names: BTreeSet::new(), mutarg_names: BTreeSet::new(), mut_params: vec![], ret_coq: String::new(), loops: vec![], fn_assigned: BTreeSet::new(), cur_file: file.to_string(), fn_coq: String::new(), loop_counter: 0, aux_defs: vec![] };
-        let v = tr.pure(ex, &Env::default(), Some(&ty)).map_err(|e| format!("{} const `{}`: {}", file, spec, e))?;
+        let mut cenv = Env::default();
+        let cbinders = self.mvar_binders(&mvars, &mut tr, &mut cenv)?;
+        let v = tr.pure(ex, &cenv, Some(&ty)).map_err(|e| format!("{} const `{}`: {}", file, spec, e))?;
         join(&v.ty, &ty).map_err(|e| format!("{} const `{}`: {}", file, spec, e))?;
-        let coq = format!("src_{}", spec.replace("::", "_"));
+        let coq = coq_as.unwrap_or_else(|| format!("src_{}", sanitize(&spec.replace("::", "_"))));
         let text: String = src.text.lines().skip(l1 - 1).take(l2 - l1 + 1).collect::<Vec<_>>().join("\n");
         let head = format!("(* {}:{}-{}  const {}  hash:{:016x} *)", file, l1, l2, spec, fnv1a(&text));
         let cty = self.tables.coq_ty(&ty)?;
-        let body = format!("{}\nDefinition {} : {} := {}.\n", head, coq, cty, v.s);
-        self.tables.consts.push(ConstInfo { key: spec.to_string(), coq, ty });
+        let body = format!("{}\nDefinition {}{} : {} := {}.\n", head, coq, cbinders, cty, v.s);
+        self.tables.consts.push(ConstInfo { key: spec.to_string(), coq, ty, mvars, file: file.to_string() });
         let idx = self.tables.consts.len() - 1;
         self.modules[module].decls.push(Decl::Const(idx, file.to_string(), body));
         Ok(())
@@ -629,6 +808,7 @@ impl Driver {
             tr.counter.insert("fuel".into(), 1);
             binders.push_str(" (fuel' : nat)");
         }
+        binders.push_str(&self.mvar_binders(&info.mvars, &mut tr, &mut env).map_err(nf)?);
         for (n, t) in info.const_generics.iter() {
             let c = tr.fresh(n);
             write!(binders, " ({} : {})", c, self.tables.coq_ty(t).map_err(nf)?).unwrap();
@@ -843,7 +1023,7 @@ fn main() {
                 }
                 r
             }
-            "const" if w.len() == 3 => d.add_const(w[1], w[2], cur),
+            "const" if w.len() == 3 => d.add_const(w[1], w[2], opts.get("as").cloned(), cur),
             "assoc" if w.len() == 3 => {
                 let t: R<Type> = syn::parse_str(w[2]).map_err(|e| e.to_string());
                 t.and_then(|t| d.conv(&t, &BTreeSet::new(), None, None)).map(|t| {
@@ -872,12 +1052,70 @@ fn main() {
                 match err {
                     Some(e) => Err(e),
                     None => {
-                        d.tables.externs.insert(w[1].to_string(), ExternInfo { name: w[1].to_string(), coq_ty: w[3].replace('~', " "), methods });
+                        d.tables.externs.insert(w[1].to_string(), ExternInfo { name: w[1].to_string(), coq_ty: w[3].replace('~', " "), methods, row: None, consts: vec![], statics: vec![] });
                         Ok(())
                     }
                 }
             }
             "fn" if w.len() == 3 => d.add_fn(w[1], w[2], opts.get("as").cloned(), cur),
+            // macro <file> <macro name> <arm> as <virtual file> [$name=tokens ...]
+            "macro" if w.len() >= 6 && w[4] == "as" => match w[3].parse::<usize>() {
+                Ok(arm) => d.add_macro(w[1], w[2], arm, w[5], &w[6..]),
+                Err(_) => Err("macro arm index".to_string()),
+            },
+            // mvar <M_name> <rust type>
+            "mvar" if w.len() == 3 => {
+                let t: R<Type> = syn::parse_str(w[2]).map_err(|e| e.to_string());
+                t.and_then(|t| d.conv(&t, &BTreeSet::new(), None, None)).map(|t| {
+                    d.tables.mvars.push(MVar { name: w[1].to_string(), ty: t, coq_ty: None });
+                })
+            }
+            // mtype <M_name> = <coq type of values> <coq type of the row> [const:NAME:type:coqfn | method:name:type:coqfn | fn:name:argtypes:rettype:coqfn]...
+            "mtype" if w.len() >= 5 && w[2] == "=" => {
+                let mut x = ExternInfo { name: w[1].to_string(), coq_ty: w[3].replace('~', " "), methods: vec![], row: Some(w[1].to_string()), consts: vec![], statics: vec![] };
+                let mut err = None;
+                let ty_of = |d: &Driver, s: &str| -> R<Ty> {
+                    if s == "Self" {
+                        return Ok(Ty::Extern("Self".into()));
+                    }
+                    let t: Type = syn::parse_str(s).map_err(|e| e.to_string())?;
+                    d.conv(&t, &BTreeSet::new(), None, None)
+                };
+                for m in &w[5..] {
+                    let ps: Vec<&str> = m.split(':').collect();
+                    let r: R<()> = (|| {
+                        match (ps[0], ps.len()) {
+                            ("const", 4) => x.consts.push((ps[1].to_string(), ty_of(&d, ps[2])?, ps[3].replace('~', " "))),
+                            ("method", 4) => x.methods.push((ps[1].to_string(), ty_of(&d, ps[2])?, ps[3].replace('~', " "))),
+                            ("fn", 5) => {
+                                let mut at = vec![];
+                                for a in ps[2].split(',').filter(|a| !a.is_empty()) {
+                                    at.push(ty_of(&d, a)?);
+                                }
+                                x.statics.push((ps[1].to_string(), at, ty_of(&d, ps[3])?, ps[4].replace('~', " ")))
+                            }
+                            _ => return Err(format!("mtype member `{}`", m)),
+                        }
+                        Ok(())
+                    })();
+                    if let Err(e) = r {
+                        err = Some(e);
+                        break;
+                    }
+                }
+                match err {
+                    Some(e) => Err(e),
+                    None => {
+                        if w[4] == "-" {
+                            x.row = None;
+                        } else {
+                            d.tables.mvars.push(MVar { name: w[1].to_string(), ty: Ty::Infer, coq_ty: Some(w[4].replace('~', " ")) });
+                        }
+                        d.tables.externs.insert(w[1].to_string(), x);
+                        Ok(())
+                    }
+                }
+            }
             _ => Err(format!("cannot parse configuration line: {}", line)),
         };
         if let Err(e) = res {
